@@ -368,6 +368,8 @@ def recipe(draw, profile="json", max_ops=14, bundles=True, kinds=None, min_ops=0
         weights += [bundle_op(profile)]
     weights += [record_op(profile, kinds)] * 7
     weights += [add_attrs_op(profile)]
+    if profile in ("json", "xml", "provn"):
+        weights += [st.builds(lambda i, k: ["refused", i, k], st.integers(0, 30), st.integers(0, 4))]
     lo = max(min_ops, draw(st.sampled_from([0, 1, 3, 5, 8, 11])))
     ops = draw(st.lists(st.one_of(weights), min_size=lo, max_size=max(max_ops, lo)))
     # repeated identifiers: re-issue an identified record (same kind, same scope) with other attributes
